@@ -102,7 +102,7 @@ func (gs GenesisState) Validate() error {
 	tokenPairIndexMap := make(map[string]struct{})
 	for _, elem := range gs.TokenPairList {
 		index := string(TokenPairKey(elem.RemoteDomain, elem.RemoteToken))
-		if _, ok := attesterIndexMap[index]; ok {
+		if _, ok := tokenPairIndexMap[index]; ok {
 			return fmt.Errorf("duplicated index for token pairs")
 		}
 		tokenPairIndexMap[index] = struct{}{}
